@@ -324,6 +324,65 @@ def render_and_read(desc, backend, net=None):
     return files, read_ode(files, backend), net
 
 
+def batch_layout_problems(ot, kernel, want):
+    """CUDA kernels work on a batch: system `cur` owns y[cur*NEQUATIONS ...] and data[cur*NNZ ...].  The
+    statements are read relative to those windows; here the windows themselves are compared with the layout the
+    host code uses (N_VSpace / NEQUATIONS systems, NNZ entries per block).  want: {name: polynomial}"""
+    from ..ctext.cexpr import parse_expr
+
+    out = []
+    b = ot.batch.get(kernel, {})
+    md = ot.macros.as_dict()
+    for name, exp in want.items():
+        txt = b.get(name)
+        if txt is None:
+            out.append(f"{kernel}: no definition of {name}")
+            continue
+        try:
+            import re as _re
+
+            def _val(m):
+                try:
+                    return str(ot.macros.value(m.group(0)))
+                except Exception:
+                    return m.group(0)
+
+            got = P.to_poly(parse_expr(_re.sub(r"\b[A-Z][A-Z0-9_]*\b", _val, txt)), md)
+        except Exception as e:
+            out.append(f"{kernel}: {name} = {txt!r} unreadable ({e})")
+            continue
+        if got != exp:
+            out.append(f"{kernel}: {name} = {txt} is {P.show(got)}, the host lays systems out as {P.show(exp)}")
+    return out
+
+
+def kernel_reads_base_pointer(ot, kernel):
+    """scalars of a CUDA kernel whose initialiser reads the *base* pointer y (system 0) instead of the window
+    y_cur of the system the thread works on"""
+    import re as _re
+
+    inits = ot.scalar_init.get(kernel, {})
+    # only scalars that reach an emitted statement matter (a stale value nobody uses breaks nothing)
+    polys = list(ot.ydot.values()) if kernel == "FexKernel" else [p for (_s, p) in (ot.raw[k] for k in ot.raw if k[0] == "data")]
+    used = set()
+    for poly in polys:
+        used |= {x for x in P.symbols(poly) if ":" not in x}
+    frontier = list(used)
+    while frontier:
+        x = frontier.pop()
+        for ident in _re.findall(r"[A-Za-z_][A-Za-z0-9_]*", inits.get(x, "")):
+            if ident in inits and ident not in used:
+                used.add(ident)
+                frontier.append(ident)
+    bad = []
+    for name, txt in inits.items():
+        if name == "y_cur" or name not in used:
+            continue
+        if _re.search(r"(?<![A-Za-z0-9_])y(?![A-Za-z0-9_])", txt):
+            bad.append(f"{name} = {txt}")
+    return bad
+
+
 def check_c01(desc, ot, backend, areacs=None):
     """generated RHS == mass-action law (exact polynomial identity).  -> list of (sig, what)"""
     v = []
@@ -336,6 +395,19 @@ def check_c01(desc, ot, backend, areacs=None):
     if ot.nspec != len(species):
         v.append((f"C01:nspecies:{backend}", f"NSPECIES={ot.nspec}, reference has {len(species)} species"))
     ref = reference_rhs(areacs, slots)
+    if backend == "cusparse":
+        cur = P.sym("cur")
+        probs = batch_layout_problems(ot, "FexKernel", {"yistart": P.mul(cur, P.const(ot.neq))})
+        yc = " ".join((ot.batch.get("FexKernel", {}).get("y_cur") or "").split())
+        if yc.replace(" ", "") != "y+yistart":
+            probs.append(f"FexKernel: y_cur = {yc!r}, expected y + yistart")
+        if ot.lhs_offsets.get("FexKernel", {"yistart"}) != {"yistart"}:
+            probs.append("FexKernel: a ydot target is not offset by yistart")
+        if probs:
+            v.append((f"C01:batch-layout:{backend}", "; ".join(probs)))
+        bad = kernel_reads_base_pointer(ot, "FexKernel")
+        if bad:
+            v.append((f"C01:kernel-reads-system-0:{backend}", f"FexKernel: {bad} are evaluated on y (the first system of the batch), not on y_cur: every other system gets the first system's values"))
     # every species exactly one assignment
     cnt = Counter(ot.ydot_order)
     for sp, sl in slots.items():
@@ -447,6 +519,18 @@ def check_c03_single(desc, ot, backend, files):
         if any(k[0] == "?" for k in ot.jac):
             v.append((f"C03:unplaced-data:{backend}", f"{[k for k in ot.jac if k[0]=='?'][:4]}"))
         if backend == "cusparse":
+            cur = P.sym("cur")
+            probs = batch_layout_problems(ot, "JacKernel", {"yistart": P.mul(cur, P.const(n)), "jistart": P.mul(cur, P.const(nnz))})
+            yc = (ot.batch.get("JacKernel", {}).get("y_cur") or "").replace(" ", "")
+            if yc != "y+yistart":
+                probs.append(f"JacKernel: y_cur = {yc!r}, expected y + yistart")
+            if ot.lhs_offsets.get("JacKernel", {"jistart"}) != {"jistart"}:
+                probs.append("JacKernel: a data target is not offset by jistart")
+            if probs:
+                v.append((f"C03:batch-layout:{backend}", "; ".join(probs)))
+            bad = kernel_reads_base_pointer(ot, "JacKernel")
+            if bad:
+                v.append((f"C03:kernel-reads-system-0:{backend}", f"JacKernel: {bad} are evaluated on y (the first system of the batch), not on y_cur"))
             d = ot.decls.get("InitJac", {})
             if d.get("rowptrs") != n + 1 or d.get("colvals") != nnz:
                 v.append((f"C03:initjac-decl:{backend}", f"{d}"))
